@@ -72,6 +72,12 @@ PROP = dict(
         "other malformed input (truncations inside values, oversized counts) is C08's",
         "liteapi/models.go (table of `<Constructor>Tag` constants, unused inside the repository) is compared with the "
         "schema ids by the input-free oracle go.tl.tagtable only (4 stale constants repaired, commit 6cd6d39)",
+        "package tl's reflection codec for sum types (tl.SumType + tlSumType struct tags; used by the generated "
+        "request wrappers for marshalling only) is compared in both directions with the generated codec of adnl.Message "
+        "by the oracle go.tl.reflectsum; tl.decodeVector on vectors of zero-size items: known finding go.tl.zerovec "
+        "(no such vector in lite_api.tl)",
+        "tl/parser's constructor grouping (non-adjacent constructors of one type) cannot be observed on lite_api.tl, "
+        "whose constructors are adjacent: it is checked by C09's fixed coverage schema",
         "X6 (generator output == checked-in generated.go / integers.go after gofmt) is an input-free comparison of two "
         "artefacts, evaluated by go.regen.*; no theorem",
         "tl_spec_builtin / tl_spec_length_escape / tl_spec_composite and the encode conjuncts of tl_spec_padding (C09) "
